@@ -365,6 +365,7 @@ func (c *C09Case) Run() string {
 		return ""
 	}
 	rec.Class("computed")
+	c09Last = fmt.Sprint(res)
 	if c.Mode == "incr" && Dst != nil {
 		w := Arr{DT: want.DT, Shape: want.Shape, E: make([]interface{}, len(want.E))}
 		for k := range want.E {
@@ -635,3 +636,5 @@ func inF29(c *C09Case) bool {
 	blas := (va || len(c.A.Shape) == 2) && (vb || len(c.B.Shape) == 2)
 	return !blas && c.Mode == "incr"
 }
+
+var c09Last string
